@@ -4,3 +4,4 @@ import IbexModel.Box
 import IbexModel.ItvG
 import IbexModel.Bwd
 import IbexModel.Expr
+import IbexModel.HC4
